@@ -54,6 +54,8 @@ def body_dirs(o):
         ds.append(canon_dir(n))
         for a, b in X.edges_of(o):
             ds.append(canon_dir(X.cross(n, X.sub(b, a))))
+    # lattice directions that cross lattice planes at a very small angle (sine 0.05 .. 0.09)
+    ds += [canon_dir(d) for d in ((8, -7, 0), (0, 8, -7), (-7, 0, 8), (8, 7, 1), (1, 8, 7), (7, 1, -8))]
     out = []
     for d in ds:
         if d not in out:
